@@ -402,3 +402,28 @@ def same_nan_pattern(*arrs):
             n = n[:, :, 0]
         pats.append(n)
     return all(np.array_equal(pats[0], p) for p in pats[1:])
+
+
+LAYOUTS = ("C", "F", "colslice", "rowstep", "neg")
+
+
+def relayout(a, kind):
+    """an array equal to `a` (2-D) with another memory layout: C / Fortran order, a column-slice view of a wider
+    table, every second row of a longer table, or reversed strides.  Values, shape and dtype are unchanged."""
+    a = np.asarray(a)
+    if kind == "C" or a.ndim != 2:
+        return np.ascontiguousarray(a)
+    if kind == "F":
+        return np.asfortranarray(a)
+    r, c = a.shape
+    if kind == "colslice":
+        wide = np.full((r, c + 3), 7.25, dtype=a.dtype)
+        wide[:, 1 : c + 1] = a
+        return wide[:, 1 : c + 1]
+    if kind == "rowstep":
+        tall = np.full((2 * r, c), -3.5, dtype=a.dtype)
+        tall[::2] = a
+        return tall[::2]
+    if kind == "neg":
+        return np.ascontiguousarray(a[::-1, ::-1])[::-1, ::-1]
+    raise ValueError(kind)
